@@ -237,9 +237,24 @@ def families(np, mp):
                   exact=lambda X, p: mp.mpf(p[0]) * (mp.mpf(X) - 1) + mp.mpf(p[1]) * (mp.mpf(X) ** 2 - 1) / 2,
                   f2sup=lambda xl, xr, p: 0.0 * xl))
     # H^2 = (a0 + a1 x)^2 : f = 1/g, f'' = 2 a1^2 / g^3, g monotone and positive
-    F.append(dict(name="(a0+a1*x)^2", fstr="square(a0+a1*x)", params=[(1.0, 0.5), (0.2, 2.0), (3.0, -0.5)],
-                  exact=lambda X, p: mp.log((mp.mpf(p[0]) + mp.mpf(p[1]) * mp.mpf(X)) / (mp.mpf(p[0]) + mp.mpf(p[1]))) / mp.mpf(p[1]),
-                  f2sup=lambda xl, xr, p: 2 * p[1] ** 2 / np.minimum(p[0] + p[1] * xl, p[0] + p[1] * xr) ** 3))
+    # (the last parameter pair has a0 + a1 x < 0 on the whole range: H^2 is the same smooth positive function as for (5, -1))
+    F.append(dict(name="(a0+a1*x)^2", fstr="square(a0+a1*x)", params=[(1.0, 0.5), (0.2, 2.0), (3.0, -0.5), (-5.0, 1.0)],
+                  exact=lambda X, p: abs(mp.log((mp.mpf(p[0]) + mp.mpf(p[1]) * mp.mpf(X)) / (mp.mpf(p[0]) + mp.mpf(p[1]))) / mp.mpf(p[1])),
+                  f2sup=lambda xl, xr, p: 2 * p[1] ** 2 / np.minimum(np.abs(p[0] + p[1] * xl), np.abs(p[0] + p[1] * xr)) ** 3))
+    # the one-parameter form sympy integrates to a Piecewise of logarithms
+    F.append(dict(name="(a0+x)^2", fstr="pow(a0+x,2)", params=[(5.0,), (-5.0,)],
+                  exact=lambda X, p: abs(mp.log((mp.mpf(p[0]) + mp.mpf(X)) / (mp.mpf(p[0]) + 1))),
+                  f2sup=lambda xl, xr, p: 2 / np.minimum(np.abs(p[0] + xl), np.abs(p[0] + xr)) ** 3))
+    # H^2 = a0 x^2 + a1 (a0 > 0, positive on x >= 1 also for some a1 < 0): g increasing, f'' = -a0 g^-3/2 + 3 a0^2 x^2 g^-5/2
+    quad = dict(exact=lambda X, p: (mp.log(mp.sqrt(p[0]) * mp.mpf(X) + mp.sqrt(p[0] * mp.mpf(X) ** 2 + p[1])) - mp.log(mp.sqrt(p[0]) + mp.sqrt(mp.mpf(p[0]) + p[1]))) / mp.sqrt(p[0]),
+                f2sup=lambda xl, xr, p: p[0] * (p[0] * xl ** 2 + p[1]) ** -1.5 + 3 * p[0] ** 2 * xr ** 2 * (p[0] * xl ** 2 + p[1]) ** -2.5)
+    F.append(dict(name="a0*x^2+a1", fstr="a0*square(x)+a1", params=[(1.0, 0.5), (2.0, 3.0), (1.0, -0.5)], **quad))
+    F.append(dict(name="a0+x^2", fstr="a0+square(x)", params=[(0.5,), (-0.5,)],
+                  exact=lambda X, p: quad["exact"](X, (1.0, p[0])), f2sup=lambda xl, xr, p: quad["f2sup"](xl, xr, (1.0, p[0]))))
+    # H^2 = x (a0 + x): g = x^2 + a0 x increasing, f'' = -g^-3/2 + 3/4 (2x + a0)^2 g^-5/2
+    F.append(dict(name="x*(a0+x)", fstr="x*(a0+x)", params=[(2.0,), (0.5,)],
+                  exact=lambda X, p: mp.log(2 * mp.mpf(X) + p[0] + 2 * mp.sqrt(mp.mpf(X) ** 2 + p[0] * mp.mpf(X))) - mp.log(2 + p[0] + 2 * mp.sqrt(1 + mp.mpf(p[0]))),
+                  f2sup=lambda xl, xr, p: (xl ** 2 + p[0] * xl) ** -1.5 + 0.75 * (2 * xr + p[0]) ** 2 * (xl ** 2 + p[0] * xl) ** -2.5))
     # H^2 = a0 + a1 x^3 (LambdaCDM), a0, a1 > 0: f'' = -3 a1 x g^-3/2 + 27/4 a1^2 x^4 g^-5/2, g increasing
     F.append(dict(name="a0+a1*x^3", fstr="a0+a1*cube(x)", params=[(0.7, 0.3), (3430.0, 1470.0), (0.1, 2.0)],
                   exact=lambda X, p: mp.quad(lambda t: 1 / mp.sqrt(mp.mpf(p[0]) + mp.mpf(p[1]) * t ** 3), mp.linspace(1, mp.mpf(X), 4)),
@@ -317,7 +332,11 @@ def numeric_case(np, mp, L, fam, p, zp1, eq_num, eq_an):
         try:
             with warnings.catch_warnings():
                 warnings.simplefilter("ignore")
-                mu_an = as_float_array(np, L.get_pred(zp1.copy(), a, eq_an, integrated=True))
+                raw = L.get_pred(zp1.copy(), a, eq_an, integrated=True)
+                raw = np.atleast_1d(np.asarray(getattr(raw, "value", raw)))
+                if np.iscomplexobj(raw):
+                    raw = np.where(np.abs(raw.imag) <= 1e-12 * np.maximum(1.0, np.abs(raw.real)), raw.real, np.nan)      # a complex prediction is rejected by negloglike (inf)
+                mu_an = raw.astype(float)
             if mu_an.shape != mu.shape:
                 mu_an = np.broadcast_to(mu_an, mu.shape)
             d = np.abs(mu_an - mu)
@@ -327,6 +346,10 @@ def numeric_case(np, mp, L, fam, p, zp1, eq_num, eq_an):
                 out.append(("analytic", "1+z = %.6g: analytically integrated path gives %.12g, numerical path %.12g (defining integral %.12g), |difference| = %.3g mag > trapezoid bound %.3g mag (%d of %d points)" % (
                     zp1[i], mu_an[i], mu[i], ex[i], d[i], tol[i], int(badan.sum()), len(zp1))))
             stats["max_analytic_minus_exact_mag"] = float(np.nanmax(np.abs(mu_an - ex)))
+        except NameError as e:
+            # a special function numpy does not have: the fitting stages catch NameError and redo the function on the numerical path
+            # (test_all.py:385-398, test_all_Fisher.py:285-290), which is the path judged above
+            stats["analytic_fallback_nameerror"] = repr(e)
         except Exception as e:
             out.append(("analytic", "get_pred(integrated=True) raised %r" % (e,)))
     return out, stats
@@ -353,8 +376,8 @@ def numeric_part(r, np, PanthLikelihood, tier, only=None):
         fcn2, eq2, integrated = L.run_sympify(fam["fstr"], tmax=tmax, try_integration=True)
         integ[fam["name"]] = bool(integrated)
         eq_an = lambdify_as_fit(sympy, (x, a0), fcn2, eq2, nparam) if integrated else None
-        nbad = 0
         for p in fam["params"]:
+            nbad = 0
             for sname, zs in S:
                 if only and (list(p) != list(only["params"]) or sname != only["sample"]):
                     continue
